@@ -40,6 +40,18 @@ def float_groups(sch, root):
             [mk(z, z, [3, ['5', p, None, None, []]], None) for p in pats]]
 
 
+def prefix_groups(sch, root):
+    """groups whose members differ ONLY in one inner array of a dictionary struct, the arrays being
+    prefixes of one another (Metric.HistogramBounds, an Array-typed attribute value of the Resource)"""
+    if root != 'Metrics':
+        return []
+    b = ['3ff0000000000000', '4000000000000000', '4008000000000000', '4010000000000000']
+    arr = lambda k: [5, [[1, '%02x' % (0x61 + i)] for i in range(k)]]
+    mk = lambda bounds, k: [[[]], ['6d', '', '', '2', [], bounds, '0', False], ['75', [['6b', arr(k)]], '3'],
+                            ['', '', '', [], '0'], [], ['1', '2', [1, '4'], []]]
+    return [[mk(b[:n], 2) for n in (4, 3, 2, 1, 0, 3)], [mk(b[:2], n) for n in (4, 3, 2, 1, 0, 3)]]
+
+
 def main():
     seed, tier = vlib.seed_and_tier(sys.argv[1] if len(sys.argv) > 1 else 'quick')
     t0 = time.time()
@@ -76,6 +88,9 @@ def main():
             if hname == 'otel':
                 for gi, fg in enumerate(float_groups(hs, root)):
                     cases.append(dict(id=f'{hname}:{root}:floats{gi}', root=root, mode='c09', vals=fg, freeze=False))
+                for gi, pg in enumerate(prefix_groups(hs, root)):
+                    for fz in (True, False):
+                        cases.append(dict(id=f'{hname}:{root}:prefix{gi}{"z" if fz else ""}', root=root, mode='c09', vals=pg, freeze=fz))
         outs, stderr, rc = h.run_go(cases)
         mlines, mkeys = [], []
         for c, o in zip(cases, outs):
